@@ -984,6 +984,32 @@ func init() {
 				}
 				c.Add(Case{Line: line, Impl: impl, Key: key})
 			}
+			// the bytes a call returned stay what they were when later calls encode something else
+			{
+				vals := []ugo.Object{ugo.Map{"id": ugo.Int(100), "s": ugo.String("first")}, ugo.Array{ugo.Int(1), ugo.String(strings.Repeat("x", 200))}, ugo.String("zz"), ugo.Int(7)}
+				var outs [][]byte
+				var want []string
+				for _, v := range vals {
+					b, err, pan := safeMarshal(v)
+					if err != nil || pan != "" {
+						continue
+					}
+					outs = append(outs, b)
+					want = append(want, string(b))
+					ib, ierr := ujson.MarshalIndent(v, "", " ")
+					if ierr == nil {
+						outs = append(outs, ib)
+						want = append(want, string(ib))
+					}
+				}
+				for i := range outs {
+					c.dist["oracle:marshal-result-stable"]++
+					if string(outs[i]) != want[i] {
+						c.Violation(PropViolation{"C17", fmt.Sprintf("the bytes returned by an earlier Marshal call changed after later calls: now %s, were %s", clip(outs[i]), want[i]), want[i], "C17:marshal-result-overwritten"})
+						break
+					}
+				}
+			}
 			// deep nesting around the depth (1000) at which the encoder starts to look for cycles: values that
 			// share storage without being cyclic (a slice of an array inside that array's own element, the same
 			// map twice) are not cycles.  Oracle only (the model line would be megabytes).
